@@ -7,21 +7,21 @@ Local Open Scope N_scope.
 (** local window 1: after one accepted byte the window is 0 for ever *)
 Lemma window_1_stuck : exists rmp lws lmp rw ops,
   0 < rmp /\ 1 <= lws /\
-  let s := run true [] rmp lws lmp (init rw lws) ops in
+  let s := run true [] None rmp lws lmp (init rw lws) ops in
   lclosed s = false /\ live s = true /\ lwl s = 0 /\ adjusted (log s) = 0 /\
   forall d, d <> [] -> overruns lmp s (RData d) = true.
 Proof.
   exists 1, 1, 1, 0, [RData [7]]. split; [lia|]. split; [lia|]. cbv zeta.
   repeat split; try (vm_compute; reflexivity).
   intros d Hd. destruct d as [|x r]; [congruence|]. cbn [overruns]. 
-  replace (lwl (run true [] 1 1 1 (init 0 1) [RData [7]])) with 0 by (vm_compute; reflexivity).
+  replace (lwl (run true [] None 1 1 1 (init 0 1) [RData [7]])) with 0 by (vm_compute; reflexivity).
   rewrite len_cons. destruct (N.ltb_spec 0 (1 + len r)); [reflexivity|lia].
 Qed.
 
 (** once CLOSE has been sent no routine sends data any more (for either variant of addWindowBytes) *)
-Lemma closed_sends_nothing hold hook rmp lws lmp : forall more s, lclosed s = true ->
-  lclosed (run hold hook rmp lws lmp s more) = true /\
-  xbytes (log (run hold hook rmp lws lmp s more)) = xbytes (log s).
+Lemma closed_sends_nothing hold hook radj rmp lws lmp : forall more s, lclosed s = true ->
+  lclosed (run hold hook radj rmp lws lmp s more) = true /\
+  xbytes (log (run hold hook radj rmp lws lmp s more)) = xbytes (log s).
 Proof.
   assert (Hcc : forall s, lclosed s = true -> lclosed (channel_closed s) = true /\ xbytes (log (channel_closed s)) = xbytes (log s)).
   { intros s H. unfold channel_closed. destruct s. cbn in *. destruct live; cbn; rewrite ?xbytes_app, ?app_nil_r; auto. }
@@ -72,15 +72,15 @@ Proof.
       + split; [exact A|]. cbn [log set_closing]. rewrite B. exact X3.
     - destruct (Hxa (p :: l) (set_ext [] s3) H3) as [A B]. split; [exact A|]. rewrite B. exact X3. }
   induction more as [|o r IH]; intros s H; [cbn; auto|]. cbn [run fold_left].
-  assert (lclosed (step hold hook rmp lws lmp s o) = true /\ xbytes (log (step hold hook rmp lws lmp s o)) = xbytes (log s)) as [A B].
+  assert (lclosed (step hold hook radj rmp lws lmp s o) = true /\ xbytes (log (step hold hook radj rmp lws lmp s o)) = xbytes (log s)) as [A B].
   { destruct o; cbn [step]; auto.
     - unfold recv_adjust. destruct (live s); cbn [negb]; [auto|]. cbn. rewrite xbytes_app, app_nil_r. auto.
     - unfold recv_data. destruct (live s); cbn [negb]; [|cbn; rewrite xbytes_app, app_nil_r; auto].
       destruct (_ || _); [rewrite Hsc; auto|]. unfold adjust_window. cbn [lclosed set_lwl]. rewrite H.
-      destruct (_ <? _); cbn; rewrite xbytes_app, app_nil_r; auto.
+      destruct radj, (_ <? _); cbn [lclosed emit set_lwl log]; rewrite ?H; cbn; rewrite xbytes_app, app_nil_r; auto.
     - unfold recv_data. destruct (live s); cbn [negb]; [|cbn; rewrite xbytes_app, app_nil_r; auto].
       destruct (_ || _); [rewrite Hsc; auto|]. unfold adjust_window. cbn [lclosed set_lwl]. rewrite H.
-      destruct (_ <? _); cbn; rewrite xbytes_app, app_nil_r; auto.
+      destruct radj, (_ <? _); cbn [lclosed emit set_lwl log]; rewrite ?H; cbn; rewrite xbytes_app, app_nil_r; auto.
     - unfold recv_close. destruct (live s); cbn [negb]; [|cbn; rewrite xbytes_app, app_nil_r; auto].
       destruct (Hl s H) as [C D]. cbn [lclosed rclosed set_rclosed]. rewrite C. cbn [andb].
       destruct (Hcc (set_rclosed true (lose s)) C) as [E F]. split; [exact E|]. rewrite F. exact D.
@@ -92,11 +92,11 @@ Qed.
     sends  EXT(1,"a")  CLOSE  and never EXT(2,"b") *)
 Lemma pinned_witness : exists rmp lws lmp rw ops o,
   0 < rmp /\
-  let s := run false [] rmp lws lmp (init rw lws) ops in
-  let s' := step false [] rmp lws lmp s o in
+  let s := run false [] None rmp lws lmp (init rw lws) ops in
+  let s' := step false [] None rmp lws lmp s o in
   lclosed s = false /\ lclosed s' = true /\ overruns lmp s o = false /\
   xbytes (log s') <> xwritten (ops ++ [o]) /\
-  forall more, xbytes (log (run false [] rmp lws lmp s' more)) = xbytes (log s').
+  forall more, xbytes (log (run false [] None rmp lws lmp s' more)) = xbytes (log s').
 Proof.
   exists 5, 4, 4, 0, [WriteExt 1 [97]; WriteExt 2 [98]; Lose], (RAdjust 9).
   split; [lia|]. cbv zeta. split; [vm_compute; reflexivity|]. split; [vm_compute; reflexivity|].
@@ -106,7 +106,7 @@ Qed.
 
 (** the same history on the repaired machine: both entries, then CLOSE *)
 Example repaired_flushes_both :
-  pkts (log (run true [] 5 4 4 (init 0 4) [WriteExt 1 [97]; WriteExt 2 [98]; Lose; RAdjust 9]))
+  pkts (log (run true [] None 5 4 4 (init 0 4) [WriteExt 1 [97]; WriteExt 2 [98]; Lose; RAdjust 9]))
   = [PExt 1 [97]; PExt 2 [98]; PClose].
 Proof. vm_compute. reflexivity. Qed.
 
@@ -114,8 +114,8 @@ Proof. vm_compute. reflexivity. Qed.
     both streams, close requested, window arriving in pieces; the last adjust triggers CLOSE *)
 Example close_hypotheses_inhabited :
   let ops := [Write [1;2;3;4]; WriteExt 1 [5;6]; WriteExt 2 [7]; Write [8]; Lose; RAdjust 2; RData [9;9;9]] in
-  let s := run true [] 2 4 3 (init 1 4) ops in
-  let s' := step true [] 2 4 3 s (RAdjust 9) in
+  let s := run true [] None 2 4 3 (init 1 4) ops in
+  let s' := step true [] None 2 4 3 s (RAdjust 9) in
   lclosed s = false /\ buf s = [4;8] /\ ext s = [(1, [5;6]); (2, [7])] /\ closing s = true /\
   overruns 3 s (RAdjust 9) = false /\ lclosed s' = true /\
   pkts (log s') = [PData [1]; PData [2;3]; PAdjust 3; PData [4;8]; PExt 1 [5;6]; PExt 2 [7]; PClose].
@@ -126,6 +126,6 @@ Proof. vm_compute. repeat split; reflexivity. Qed.
     has no backlog, so its byte is sent at once) *)
 Example hook_data_follows_backlog :
   let hook := [HWrite [89; 90]; HWriteExt 1 [101]] in
-  pkts (log (run true hook 4 8 8 (init 1 8) [Write [97; 98; 99; 100]; RAdjust 6]))
+  pkts (log (run true hook None 4 8 8 (init 1 8) [Write [97; 98; 99; 100]; RAdjust 6]))
   = [PData [97]; PExt 1 [101]; PData [98; 99; 100; 89]; PData [90]].
 Proof. vm_compute. reflexivity. Qed.
